@@ -101,11 +101,21 @@ func (r *Response) send_err_response() {
 	// resp->content_length = strlen(default_err_msg);
 	// log_error(serv, "failed to open file %s", err_file);
 	// }
-	r.entity_body = default_err_msg
+	// A handler that reported the status itself (Error) and ended the response
+	// keeps its own body; only errors raised by the server get the standard page.
+	// 处理函数自己设置状态并结束响应时保留它的消息体
+	handlerBody := r.ended
+	if !handlerBody {
+		r.entity_body = default_err_msg
+	}
 
 	// 构建消息头部
 	r.headers.http_headers_add("Content-Type", "text/html")
-	r.headers.http_headers_add("Content-Length", string(r.content_length))
+	if handlerBody {
+		r.headers.http_headers_add("Content-Length", strconv.Itoa(len(r.entity_body)))
+	} else {
+		r.headers.http_headers_add("Content-Length", string(r.content_length))
+	}
 
 	// if con.request.method != HTTP_METHOD_HEAD {
 	//    read_err_file(serv, con, resp->entity_body);
@@ -149,6 +159,11 @@ func (r *Response) send_all(buf string) {
 //Error set status_code
 func (r *Response) Error(code int) {
 	r.con.set_status_code(code)
+	// set_status_code keeps the first status and a connection starts out as
+	// 200, so the call above never had an effect: the status a handler reports
+	// must reach the client.
+	// 连接初始状态为200，set_status_code 不会覆盖；处理函数设置的状态必须生效
+	r.con.status_code = code
 }
 
 //GetCon get
